@@ -41,6 +41,54 @@ const (
 // BytesToSnapshot(SnapshotToBytes(d)).
 const findingTextAttr = "F43"
 
+// findingMergeSplit: after a paragraph merge followed by an element split in
+// the merged paragraph, a snapshot no longer behaves like the document it was
+// taken from: a concurrent remote insert anchored in the merged-away parent
+// lands in the left half on the original and in the right half on
+// BytesToSnapshot(SnapshotToBytes(d)) (the merge relation is rebuilt from
+// MergedFrom only). Trigger: a tree holding both a merged node and a split
+// element.
+const findingMergeSplit = "F45"
+
+func mergedAndSplitTree(e crdt.Element) bool {
+	switch v := e.(type) {
+	case *crdt.Object:
+		for _, n := range v.RHTNodes() {
+			if mergedAndSplitTree(n.Element()) {
+				return true
+			}
+		}
+	case *crdt.Array:
+		for _, n := range v.RGATreeList().AllNodes() {
+			if n.Element() != nil && mergedAndSplitTree(n.Element()) {
+				return true
+			}
+		}
+	case *crdt.Tree:
+		merged, split := false, false
+		for _, n := range v.Nodes() {
+			if n.MergedFrom != nil {
+				merged = true
+			}
+			if !n.IsText() && (n.InsPrevID != nil || n.InsNextID != nil) {
+				split = true
+			}
+		}
+		return merged && split
+	}
+	return false
+}
+
+// findingArraySetGC (upstream TODO in operations/array_set.go: "GC logic is
+// not implemented here"): ArraySet tombstones the element it replaces without
+// registering it for garbage collection, so a document that executed the
+// operation never purges that tombstone while BytesToSnapshot(SnapshotToBytes
+// (d)) (which registers every tombstone it finds) does: GarbageLen and the
+// physical nodes differ after the next collection. Once a server document has
+// executed an ArraySet, the server-side collection is not run on it and its
+// twins.
+const findingArraySetGC = "F46"
+
 // snapshotExclusion names the known finding whose trigger the document holds
 // (its snapshot round trip is then not compared), or "".
 func snapshotExclusion(doc *document.InternalDocument) string {
@@ -52,6 +100,8 @@ func snapshotExclusion(doc *document.InternalDocument) string {
 		return findingMemberTombstone
 	case removedTextAttr(doc.RootObject()):
 		return findingTextAttr
+	case mergedAndSplitTree(doc.RootObject()):
+		return findingMergeSplit
 	case leakedGarbage(doc):
 		return findingGarbageLeak
 	}
